@@ -38,6 +38,18 @@ func newKeyring() *keyring {
 	return k
 }
 
+// nonPublicSigners: the base key pair under issuer names that carry a prefix byte no public role has
+func nonPublicSigners(base *signer) []*signer {
+	var out []*signer
+	for _, p := range []struct {
+		name   string
+		prefix byte
+	}{{"private-key prefix", 15 << 3}, {"seed prefix", 18 << 3}, {"unknown prefix", 25 << 3}, {"unassigned prefix 1", 1 << 3}, {"unassigned prefix 31", 31 << 3}} {
+		out = append(out, &signer{kp: base.kp, pub: relabel(base.pub, p.prefix), role: p.name})
+	}
+	return out
+}
+
 const hdrV2 = `{"typ":"JWT","alg":"ed25519-nkey"}`
 const hdrV1 = `{"typ":"jwt","alg":"ed25519"}`
 
@@ -120,6 +132,32 @@ func runC02(c *Ctx) {
 			}
 		}
 	}
+	// issuers that are well-formed nkeys of NO public role - the private-key, seed and unknown prefixes and two unassigned
+	// ones around a true Ed25519 public key, every token correctly signed by the matching private key: not a public key
+	// of any role, so nobody's claims (generic ones included) are accepted from them
+	for _, kind := range kinds {
+		for _, s := range nonPublicSigners(kr.by["account"]) {
+			for _, layout := range []string{"v1", "v2"} {
+				for _, placement := range []string{"top", "nats"} {
+					var ver interface{} = 2
+					hdr := hdrV2
+					if placement == "top" {
+						ver = nil
+					}
+					if layout == "v1" {
+						hdr = hdrV1
+					}
+					if placement == "nats" && layout == "v1" {
+						ver = 1
+					}
+					ft := forge(hdr, payload(kind, placement, ver, s.pub, kr.by["account"].pub), layout, s)
+					ft.Note = fmt.Sprintf("kind=%s issuer=%s placement=%s", kind, s.role, placement)
+					_, o := processToken(c, w, ft)
+					distinct[fmt.Sprint(kind, s.role, layout, placement, o.Accepted)] = true
+				}
+			}
+		}
+	}
 	// versions at and below zero in the nats section (absent = 0): the issuer-role rule does not depend on the version
 	for _, kind := range kinds {
 		for _, ir := range allRoles {
@@ -194,8 +232,11 @@ func runC02(c *Ctx) {
 	for _, kind := range kinds {
 		for sr, sub := range subjects {
 			for kr_, kp := range signers {
-				for _, badURL := range []bool{false, true} {
-					if badURL && kind != "operator" {
+				// the operator's account server URL: none, one the Encode-side test refuses, well-formed ones (which
+				// must not let anything else through)
+				for _, asURL := range []string{"", "no-protocol.example.com", "https://accounts.example.com/jwt/v1", "http://localhost:9090/jwt/v1/"} {
+					badURL := asURL == "no-protocol.example.com"
+					if asURL != "" && kind != "operator" {
 						continue
 					}
 					var cl jwt.Claims
@@ -203,9 +244,7 @@ func runC02(c *Ctx) {
 					case "operator":
 						oc := &jwt.OperatorClaims{}
 						oc.Subject = sub
-						if badURL {
-							oc.AccountServerURL = "no-protocol.example.com"
-						}
+						oc.AccountServerURL = asURL
 						cl = oc
 					case "account":
 						ac := &jwt.AccountClaims{}
@@ -238,8 +277,8 @@ func runC02(c *Ctx) {
 						if hist != "fresh" {
 							cl = reflect.New(reflect.TypeOf(cl).Elem()).Interface().(jwt.Claims)
 							cl.Claims().Subject = sub
-							if oc, isOp := cl.(*jwt.OperatorClaims); isOp && badURL {
-								oc.AccountServerURL = "no-protocol.example.com"
+							if oc, isOp := cl.(*jwt.OperatorClaims); isOp {
+								oc.AccountServerURL = asURL
 							}
 							switch hist {
 							case "issuer preset to the signer":
@@ -259,7 +298,7 @@ func runC02(c *Ctx) {
 						ok := err == nil
 						c.sum.Evaluations++
 						c.sum.ImplChecks++
-						inp := map[string]interface{}{"direction": "encode", "kind": kind, "subject_role": sr, "signer_role": kr_, "bad_account_server_url": badURL, "success": ok, "history": hist}
+						inp := map[string]interface{}{"direction": "encode", "kind": kind, "subject_role": sr, "signer_role": kr_, "bad_account_server_url": badURL, "account_server_url": asURL, "success": ok, "history": hist}
 						subRole := sr
 						if sr == "none" || sr == "empty" {
 							subRole = "none"
@@ -586,6 +625,29 @@ func checkEnvelope(c *Ctx, kr *keyring) {
 			}
 		}
 	}
+	// generic claims: whatever the data map holds - a nested object named nats, a kind of its own, a stale or ill-typed
+	// version left by the application or by a decoder - Encode writes version 2 into the nats section
+	for gi, data := range []map[string]interface{}{
+		{"nats": map[string]interface{}{"a": 1.0}},
+		{"nats": map[string]interface{}{"version": 3.0, "type": "user"}},
+		{"nats": map[string]interface{}{}, "version": 3.0},
+		{"type": "my-kind", "nats": map[string]interface{}{"x": "y"}},
+		{"version": 3.0}, {"version": "1.4.2"}, {"version": 2.5}, {"version": []interface{}{1.0}}, {"version": nil}, {"version": -1.0},
+		{"type": "generic", "version": 7.0}, {"Version": 3.0}, {"nats": "text"}, {},
+	} {
+		gc := jwt.NewGenericClaims(kr.by["user"].pub)
+		gc.Data = data
+		if t, err := gc.Encode(kr.by["user"].kp); err == nil {
+			toks[fmt.Sprintf("generic with data form %d", gi)] = t
+			// ... and again for what a decoder makes of that token
+			if d, err := jwt.DecodeGeneric(t); err == nil {
+				d.Data["version"] = 3.0
+				if t2, err := d.Encode(kr.by["user"].kp); err == nil {
+					toks[fmt.Sprintf("generic with data form %d, decoded, version raised and encoded again", gi)] = t2
+				}
+			}
+		}
+	}
 	for kind, tok := range toks {
 		c.sum.ImplChecks++
 		c.sum.Evaluations++
@@ -907,6 +969,37 @@ func runC01(c *Ctx) {
 					c.count("layout_cross")
 					distinct[fmt.Sprint("cross", kind, placement, layout, hdr == hdrV1, o.Accepted)] = true
 				}
+			}
+		}
+	}
+	// a token in its file armour is not a token: the output of DecorateJWT / FormatUserConfig, ad-hoc dashed lines around
+	// it, white space or line breaks before and after it - no decoder may take the armour off by itself and report the
+	// claims of the token inside as those of the string it was handed
+	{
+		names := make([]string, 0, len(all))
+		for k := range all {
+			names = append(names, k)
+		}
+		sortStrings(names)
+		for _, name := range names {
+			tok := all[name]
+			var dressed []string
+			if d, err := jwt.DecorateJWT(tok); err == nil {
+				dressed = append(dressed, string(d))
+			}
+			if d, err := jwt.FormatUserConfig(tok, []byte("SUAIBDPBAUTWCWBKIO6XHQNINK5FWJW4OHLXC3HQ2KFE4PEJUA44CNHTC4")); err == nil {
+				dressed = append(dressed, string(d))
+			}
+			dressed = append(dressed,
+				"--- token ---\n"+tok+"\n--- end ---\n",
+				"-----BEGIN NATS USER JWT-----\n"+tok+"\n------END NATS USER JWT------",
+				"---\n"+tok+"\n---",
+				" "+tok, tok+" ", tok+"\n", "\n"+tok, "\t"+tok+"\r\n", "\""+tok+"\"", "Bearer "+tok, tok+"\x00")
+			for i, d := range dressed {
+				ft := forged{Token: d, Note: fmt.Sprintf("token %s in armour form %d", name, i)}
+				_, o := processToken(c, w, ft)
+				c.count("dressed_token")
+				distinct[fmt.Sprint("dressed", name, i, o.Accepted, o.Generic)] = true
 			}
 		}
 	}
